@@ -456,8 +456,7 @@ fn store_view(w: &WalletH, slots: &[uuid::Uuid]) -> Value {
 		w,
 		&ProjOpts {
 			slots: slots.to_vec(),
-			heights: false,
-		},
+			heights: false, canon_ids: false },
 	);
 	// a bumped derivation index reserves no funds: not compared
 	if let Some(accts) = v["accounts"].as_array_mut() {
